@@ -30,6 +30,11 @@ def run(tier, seed, t0):
                         ["--mode", "tlwe", "--N", N, "--k", "1,2,3", "--reps", r, "--seed", seed]))
         jobs.append(Job("optim-extract-N%d" % N, "drv_c14", "optim", "spqlios-fma",
                         ["--mode", "extract", "--N", N, "--k", "1,2,3", "--reps", 4 if thorough else 2, "--seed", seed]))
+    # operands, results and keys far apart in the address space (successive blocks from three distant regions)
+    jobs.append(Job("optim-lwe-spread", "drv_c14", "optim", "spqlios-fma", ["--mode", "lwe", "--n", "1,7,8,9,33,500,630,1024", "--reps", max(3, reps // 3), "--seed", seed + 5, "--heapphase", 100]))
+    jobs.append(Job("optim-tlwe-spread", "drv_c14", "optim", "spqlios-fma", ["--mode", "tlwe", "--N", "16,64,1024", "--k", "1,2", "--reps", max(3, reps // 3), "--seed", seed + 5, "--heapphase", 100]))
+    jobs.append(Job("optim-extract-spread", "drv_c14", "optim", "spqlios-fma", ["--mode", "extract", "--N", "16,1024", "--k", "1,2", "--reps", 1, "--seed", seed + 5, "--heapphase", 100]))
+    jobs.append(Job("debug-tlwe-spread", "drv_c14", "debug", "nayuki-portable", ["--mode", "tlwe", "--N", "64,1024", "--k", "1,2", "--reps", 2, "--seed", seed + 6, "--heapphase", 100]))
     jobs.append(Job("debug-tlwe", "drv_c14", "debug", "nayuki-portable",
                     ["--mode", "tlwe", "--N", "2,8,64,1024", "--k", "1,2,3", "--reps", 2, "--seed", seed + 1]))
     jobs.append(Job("debug-extract", "drv_c14", "debug", "nayuki-portable",
